@@ -261,7 +261,7 @@ class Ctx:
         self.sigcount[sig] = n + 1
         if n < 3 and len(self.sigcount) <= 80:
             path = None
-            if self.nviol_files < 60:
+            if self.nviol_files < 60 or (n == 0 and self.nviol_files < 400):       # the first occurrence of every signature gets its replay file
                 self.nviol_files += 1
                 path = os.path.join(self.outdir, "viol-%d.json" % self.nviol_files)
                 with open(path, "w") as f:
